@@ -21,7 +21,7 @@ def bounded(tier, seed):
 
 MANIFEST = dict(
     category="other",
-    text='Contract-based proofs on the real source: the cover-row ENCODERS (every non-ignored edge used by some layer), the search-loop clauses of MinPathCover(.Cycles).solve, stDAG.get_width caching + bounded stand-in: covers, widths and k-cover solvability vs a brute-force minimum cover.',
+    text='Contract-based proofs on the real source: the cover-row ENCODERS (every non-ignored edge used by some layer), the search-loop clauses of MinPathCover(.Cycles).solve, stDAG.get_width caching, stDiGraph.get_width weight function (scenario runs on real objects: bundle multiplicity minus ignored edges, node edge 0 iff every member edge ignored; labelled concrete scenarios) + bounded stand-in: covers, widths and k-cover solvability vs a brute-force minimum cover.',
     design_ref="DESIGN.md section 3 / C09",
     note="Width = minimum cover is NOT proved. Trusted: HiGHS, networkx (min-cost flow in get_width), brute-force oracle.",
     technique='contract-based deductive verification of encoders and search loops (PyVC) + bounded runtime-contract check vs brute-force minimum cover',
